@@ -46,7 +46,9 @@ class C06(Prop):
             "and every outcome is compared with the model's for that configuration; the statistic nb_memory_chunks "
             "tells whether the string scan was really skipped, which the model predicts.  Non-trivial: the no-scan "
             "pass decides some but not all rules, or a quantifier / and / or mixes decidable and undecidable operands; "
-            "distinct by (rule set, input)." % len(CONFIGS))
+            "distinct by (rule set, input).  One case in five is a rule file of the C07 dialect (text / hex / regex strings "
+            "with every modifier): no model prediction there, matched rules and errors must be equal under all "
+            "configurations and match details a subset of the full-matches run." % len(CONFIGS))
     TRUSTED = ["Coq 8.16.1 kernel + vm_compute", "harness/src/scan.rs, harness/src/bin/c06.rs", "vlib/ruleset.py + "
                "vlib/cond.py", "string matches of plain text strings computed by bytes.find"]
     ASSUMPTIONS = ["compiler profile (DFA vs contiguous NFA) and mem / file / mmap do not exist in the model: one model "
@@ -57,7 +59,16 @@ class C06(Prop):
     def budget(self, tier):
         return 220 if tier == "quick" else 4000
 
+    def gen_rich(self, rng):
+        """Rule files of the C07 dialect (text / hex / regex strings with every modifier, conditions over them):
+        no model prediction, the configurations are compared with one another."""
+        from . import c07
+        c = json.loads(json.dumps(c07.gen_case(rng), default=lambda b: list(b)))
+        return {"kind": "rich", "c07": c, "mem": rng.choice(c["inputs"])}
+
     def gen_case(self, rng):
+        if rng.chance(1, 5):
+            return self.gen_rich(rng)
         if rng.chance(1, 5):
             # a single rule whose condition is decidable before the string scan only through its scan-free
             # part: sibling loops / connectives where the first operand needs strings
@@ -103,7 +114,12 @@ class C06(Prop):
         wd = os.path.join(core.VERIF, ".work", "c06_%d" % os.getpid())
         os.makedirs(wd, exist_ok=True)
         ctx.workdir = wd
-        hc = [{"rules": ruleset.harness_rules(c["rs"]), "input": {"mem": c["mem"]}, "workdir": wd,
+        def rules_of(c):
+            if c.get("kind") == "rich":
+                from . import c07
+                return c07.harness_rules(c["c07"])
+            return ruleset.harness_rules(c["rs"])
+        hc = [{"rules": rules_of(c), "input": {"mem": c["mem"]}, "workdir": wd,
                "configs": [c_[1] for c_ in CONFIGS]} for c in cases]
         return core.harness_run(ctx.binp, "c06", hc)
 
@@ -112,7 +128,34 @@ class C06(Prop):
         if getattr(ctx, "workdir", None):
             shutil.rmtree(ctx.workdir, ignore_errors=True)
 
+    def term_rich(self, ctx, case, out):
+        if not isinstance(out, dict) or "outs" not in out:
+            return (False, False, 0)
+        outs = out["outs"]
+        if any("compile_error" in o for o in outs):
+            ctx.count("rich: compile_error")
+            return (True, True, 0)
+        def matched(o):
+            rules = list(o.get("rules", [])) + [e["rule"] for e in o.get("events", []) if e.get("ev") == "match"]
+            return sorted((r["ns"], r["name"]) for r in rules if r["matched"])
+        ref = details(outs[0]) if "rules" in outs[0] else {}
+        m0 = matched(outs[0])
+        ctx.count("rich: compared across %d configurations" % len(outs))
+        ctx.count("rich: %s" % ("some rule matches" if m0 else "no rule matches"))
+        for (name, _, _, _), o in zip(CONFIGS, outs):
+            if o.get("error") != outs[0].get("error") or matched(o) != m0:
+                ctx.notes.append("rich rule file: configuration %s reports %s (error %s), ref_full reports %s (error %s)"
+                                 % (name, matched(o), o.get("error"), m0, outs[0].get("error")))
+                return (False, False, 0)
+            for k, v in details(o).items():
+                if not v <= ref.get(k, set()):
+                    ctx.notes.append("rich rule file: details of %s not a subset of the full run for %s" % (name, k))
+                    return (False, False, 0)
+        return (True, True, 0)
+
     def term(self, ctx, case, out):
+        if case.get("kind") == "rich":
+            return self.term_rich(ctx, case, out)
         rs = case["rs"]
         if not isinstance(out, dict) or "outs" not in out:
             return (False, False, 0)
@@ -140,6 +183,8 @@ class C06(Prop):
         return "C06_case %s %s %s" % (ruleset.g_scanner(rs), ruleset.g_inputs(rs, mem), glist(runs))
 
     def nontrivial(self, case, out):
+        if case.get("kind") == "rich":
+            return json.dumps(case, sort_keys=True) if any(r["strings"] for r in case["c07"]["rules"]) else None
         try:
             o = out["outs"]
             s = json.dumps([r["cond"] for r in case["rs"]["rules"]])
@@ -149,6 +194,9 @@ class C06(Prop):
             return None
 
     def sample(self, case, out):
+        if case.get("kind") == "rich":
+            from . import c07
+            return {"rules": [(x["ns"], x["src"]) for x in c07.harness_rules(case["c07"])], "mem": case["mem"]}
         return {"rules": [(x["ns"], x["src"]) for x in ruleset.harness_rules(case["rs"])], "mem": case["mem"],
                 "impl": [{"config": n, "error": o.get("error"), "chunks": o.get("chunks"),
                           "matched": [r["name"] for r in o.get("rules", []) if r["matched"]]
